@@ -92,6 +92,16 @@ partial def showTrie (n mul add : Nat) (val : Nat → String) : String :=
   if add ≥ n then ".nil"
   else s!"(.node (some {val add}) {showTrie n (2 * mul) (mul + add) val} {showTrie n (2 * mul) (2 * mul + add) val})"
 
+/-- mark every interface-call site with a pseudo access `1000000 + f` so that the analysis reports its lockset -/
+def markIcalls : KV.LockProg.Cmd → KV.LockProg.Cmd
+  | .icall f => .seq (.acc (1000000 + f)) (.icall f)
+  | .seq a b => .seq (markIcalls a) (markIcalls b)
+  | .alt a b => .alt (markIcalls a) (markIcalls b)
+  | .loop a => .loop (markIcalls a)
+  | .block a => .block (markIcalls a)
+  | .spawn a => .spawn (markIcalls a)
+  | c => c
+
 /-- trie literal with holes -/
 partial def showTrieOpt (n mul add : Nat) (val : Nat → Option String) : String :=
   if add ≥ n then ".nil"
@@ -116,6 +126,10 @@ def lockFacts : String :=
       (let ls := lookup a.site; !ls.isEmpty && ls.all fun L => subB real L))
   let unjOcc := (unj.map (·.site)).eraseDups
   let maxOcc := rows.foldl (fun m r => max m r.1) 0
+  -- interface-call sites at which the `icall` restriction matters: the candidate may release a mutex held there
+  let marked : List (Nat × LS) := Gen.skeletons.flatMap fun p => (an (getL Gen.skRel) (markIcalls p.2) (getE p.1)).rows
+  let isites := marked.filter fun r => r.1 ≥ 1000000
+  let idep := isites.filter fun r => (getL Gen.skRel (r.1 - 1000000)).any fun m => r.2.any fun x => x.m == m
   let lowered := (List.range n).filter fun i => (getE i).length != (getLS Gen.skEntry i).length
   "/-\nGen/LockFacts.lean — GENERATED by `oracle_c10 lockfacts` (compiled Lean) from Gen/Skeletons.lean and Gen/Accesses.lean. DO NOT EDIT.\n" ++
   "Untrusted hints: the kernel re-checks `skEntryR` with entryOkB and justifies every table row not listed here.\n-/\n" ++
@@ -126,6 +140,8 @@ def lockFacts : String :=
   s!"def loweredEntries : List Nat := {lowered}\n\n" ++
   "/-- table rows (by site) whose locks the verified analysis does NOT re-derive: they stay on the extractor's dataflow -/\n" ++
   s!"def unjustifiedOcc : List Nat := {unjOcc}\n\n" ++
+  "/-- interface-call candidate sites, and those where the candidate may release a mutex (type) held at the site, i.e. where the `icall` restriction is actually used -/\n" ++
+  s!"def icallSites : Nat := {isites.length}\ndef icallSitesUsingRestriction : Nat := {idep.length}\n\n" ++
   "/-- the rows of the analysis, indexed by site (checked against `allRows` by the kernel) -/\n" ++
   s!"def skRowsT : Trie LS :=\n  {showTrieOpt (maxOcc + 1) 1 0 (fun i => (rows.find? fun r => r.1 == i).map fun r => showLS r.2)}\n\nend KV.Gen\n"
 
